@@ -1,6 +1,7 @@
 import H8.Drv.Cost
 import H8.Drv.Bus
 import H8.Drv.Step
+import H8.Drv.Elf
 open H8.Drv
 
 def handle (line : String) : String :=
@@ -16,7 +17,9 @@ def handle (line : String) : String :=
 partial def loop (hin : IO.FS.Stream) (hout : IO.FS.Stream) : IO Unit := do
   let line ← hin.getLine
   if line.isEmpty then return ()
-  hout.putStrLn (handle line)
+  match line.trimAscii.toString.splitOn " " with
+  | "elf" :: rest => hout.putStrLn (← elfLine rest)
+  | _ => hout.putStrLn (handle line)
   loop hin hout
 
 def main : IO Unit := do
